@@ -218,7 +218,7 @@ def conv_compare(c, impl, mo):
     if not impl.startswith("OK "):
         return False, [("conv-panic", "conversion functions failed: " + impl[:200])]
     j = json.loads(impl[3:])
-    (hvw, hvwidth, back, fb, fu), (v32b, v32r) = mo
+    hvw, hvwidth, back, fb, fu, (v32b, v32r) = mo
     w, p, m = c["w"], int(c["p"], 16), int(c["m"], 16)
     ok = True
     iw = [int(x, 16) for x in j["hv"]["words"]]
@@ -399,7 +399,7 @@ def marshal_compare(c, impl, mo):
         sw, sm, qwds, qm, dirty = ms[1]
         saw = parse_saw(r["saw"])
         q = [int(x, 16) for x in r["q"]]
-        if saw is None or saw[1] != list(sw) or saw[2] != list(sm) or q != list(qwds) or r["dirty"] != dirty:
+        if saw is None or saw[1] != list(sw) or (c["mode"] == 0 and saw[2] != list(sm)) or q != list(qwds) or r["dirty"] != dirty:
             ok = False
             break
     return ok, marshal_oracle(c, j), j
@@ -529,7 +529,11 @@ def v_cat(a, b):
     return V4(a.w + b.w, (a.p << b.w) | b.p, (a.m << b.w) | b.m)
 
 
-EXPRS = ["var", "port", "xor", "sel", "cat", "comb", "not"]
+# connection-expression kinds.  X/Z enters only through the input x and pure wiring (x, x[hi:lo], {r, x}, a comb
+# copy of x): the RTL operators of the design only ever see known values, so the check does not depend on the
+# simulator's 4-state operator evaluation (C18's business).
+EXPRS = ["var", "port", "xor", "sel", "cat", "comb", "not", "wire"]
+XKINDS = ("port", "sel", "cat", "wire")
 
 
 def design(rng, four_ok):
@@ -581,47 +585,56 @@ def design(rng, four_ok):
     if qw == we:
         if func in (0, 5):
             twin = "E"
-        elif func == 1:
+        elif func == 1 and ek not in XKINDS:
             twin = "~(E)"
-        elif func == 2:
+        elif func == 2 and ek not in XKINDS:
             twin = "qff + (E)"
     d["twin"] = twin
-    E = {"var": "r", "port": "a", "xor": "r ^ a", "sel": None, "cat": "{r, a}", "comb": "c", "not": "~r"}[ek]
+    # the connection expression: inside the DUT (over r, a, c) for the always_ff twin, and in the
+    # test module (over the DUT's outputs o_r / o_cmb, the driven variable a, or a hierarchical
+    # reference dut.r) for the component
+    E_in = {"var": "r", "port": "x", "xor": "r ^ a", "sel": None, "cat": "{r, x}", "comb": "c", "not": "~r", "wire": "xw"}[ek]
+    rname = rng.choice(["o_r", "dut.r"])
+    E_tb = {"var": rname, "port": "x", "xor": "%s ^ a" % rname, "sel": None, "cat": "{%s, x}" % rname,
+            "comb": "o_cmb", "not": "~%s" % rname, "wire": "o_xw"}[ek]
     if ek == "sel":
-        E = "r[%d:%d]" % d["sel"]
-    d["E"] = E
+        E_in = "x[%d:%d]" % d["sel"]
+        E_tb = "x[%d:%d]" % d["sel"]
+    d["E"] = E_tb
     clk = "clk_g" if d["gated"] else "clk"
-    ff = "always_ff (%s, rst)" % clk
-    lines = ["module Top (", "    clk: input clock,", "    rst: input reset,"]
+    L = ["module Dut (", "    clk: input clock,", "    rst: input reset,",
+         "    a: input logic<%d>," % W_, "    x: input logic<%d>," % W_, "    qc: input logic<%d>," % qw,
+         "    o_r: output logic<%d>," % W_, "    o_cmb: output logic<%d>," % W_, "    o_xw: output logic<%d>," % W_,
+         "    o_ff: output logic<%d>," % qw, "    o_chain: output logic<%d>," % qw, ") {",
+         "    var r: logic<%d>;" % W_, "    var qff: logic<%d>;" % qw, "    var chain: logic<%d>;" % qw,
+         "    var c: logic<%d>;" % W_, "    assign c = r ^ a;", "    var xw: logic<%d>;" % W_, "    assign xw = x;",
+         "    always_ff {", "        if_reset {", "            r = 0;", "            qff = 0;", "            chain = 0;",
+         "        } else {",
+         "            r = r ^ a;",
+         "            qff = %s;" % (twin.replace("E", E_in) if twin else "qff"),
+         "            chain = qc;", "        }", "    }",
+         "    assign o_r = r;", "    assign o_cmb = c;", "    assign o_xw = xw;", "    assign o_ff = qff;",
+         "    assign o_chain = chain;", "}",
+         "#[test(t)]", "module t {", "    inst clk: $tb::clock_gen;", "    inst rst: $tb::reset_gen(clk);"]
     if d["gated"]:
-        lines.append("    en: input logic,")
-    lines += ["    a: input logic<%d>," % W_, "    o_r: output logic<%d>," % W_, "    o_ff: output logic<%d>," % qw,
-              "    o_c: output logic<%d>," % qw, "    o_chain: output logic<%d>," % qw,
-              "    o_c2: output logic<%d>," % qw, "    o_w: output logic<%d>," % qw, ") {"]
-    if d["gated"]:
-        lines.append("    let clk_g: '_ clock = clk & en;")
-    lines += ["    var r: logic<%d>;" % W_, "    var qc: logic<%d>;" % qw, "    var qff: logic<%d>;" % qw,
-              "    var chain: logic<%d>;" % qw, "    var qc2: logic<%d>;" % qw, "    var qw_: logic<%d>;" % qw]
-    if ek == "comb":
-        lines += ["    var c: logic<%d>;" % W_, "    assign c = r ^ a;"]
-    lines += ["    %s {" % ff, "        if_reset {", "            r = 0;", "            qff = 0;", "            chain = 0;",
-              "        } else {",
-              "            r = ((r << 1) | (r >> %d)) ^ a;" % (W_ - 1),
-              "            qff = %s;" % (twin.replace("E", E) if twin else "qff"),
-              "            chain = qc;", "        }", "    }"]
+        L += ["    var en: logic;", "    let clk_g: '_ clock = clk & en;"]
+    L += ["    var a: logic<%d>;" % W_, "    var x: logic<%d>;" % W_, "    var o_r: logic<%d>;" % W_,
+          "    var o_cmb: logic<%d>;" % W_, "    var o_xw: logic<%d>;" % W_,
+          "    var o_ff: logic<%d>;" % qw, "    var o_chain: logic<%d>;" % qw,
+          "    var o_c: logic<%d>;" % qw, "    var o_c2: logic<%d>;" % qw, "    var o_w: logic<%d>;" % qw,
+          "    inst dut: Dut ( clk: %s, rst, a, x, qc: o_c, o_r, o_cmb, o_xw, o_ff, o_chain );" % clk]
     rstc = " rst," if d["with_rst"] else ""
-    lines.append("    inst u: $comp::probe #( MODE: %d, FUNC: %d ) ( clk: %s,%s d: %s, q: qc );" % (mode, func, clk, rstc, E))
+    L.append("    inst u: $comp::probe #( MODE: %d, FUNC: %d ) ( clk: %s,%s d: %s, q: o_c );" % (mode, func, clk, rstc, E_tb))
     if d["second"]:
-        lines.append("    inst u2: $comp::probe2 ( clk: %s, d: qc, q: qc2 );" % clk)
+        L.append("    inst u2: $comp::probe2 ( clk: %s, d: o_c, q: o_c2 );" % clk)
     else:
-        lines.append("    assign qc2 = 0;")
+        L.append("    assign o_c2 = 0;")
     if d["wasm"]:
-        lines.append("    inst uw: $comp::wprobe #( MODE: %d ) ( clk: %s, d: %s, q: qw_ );" % (d["wasm_mode"], clk, E))
+        L.append("    inst uw: $comp::wprobe #( MODE: %d ) ( clk: %s, d: %s, q: o_w );" % (d["wasm_mode"], clk, E_tb))
     else:
-        lines.append("    assign qw_ = 0;")
-    lines += ["    assign o_r = r;", "    assign o_ff = qff;", "    assign o_c = qc;", "    assign o_chain = chain;",
-              "    assign o_c2 = qc2;", "    assign o_w = qw_;", "}"]
-    d["src"] = "\n".join(lines)
+        L.append("    assign o_w = 0;")
+    L.append("}")
+    d["src"] = "\n".join(L)
     return d
 
 
@@ -630,23 +643,24 @@ def gen_sim(rng, n, four):
     for _ in range(n):
         d = design(rng, four)
         W_ = d["W"]
-        cycles = [{"r": 1, "v": ["0"] + (["0"] if d["gated"] else []), "m": ["0"] + (["0"] if d["gated"] else [])}]
+        cycles = [{"r": 1, "v": ["0", "0"] + (["0"] if d["gated"] else []), "m": ["0", "0"] + (["0"] if d["gated"] else [])}]
         for k in range(rng.randint(3, 7)):
             a = rand_bits(rng, W_)
-            am = 0
-            if four and rng.random() < 0.5:
-                am = rand_bits(rng, W_) if rng.random() < 0.5 else (1 << rng.randrange(W_))
+            xv = rand_bits(rng, W_)
+            xm = 0
+            if four and rng.random() < 0.6:
+                xm = rand_bits(rng, W_) if rng.random() < 0.5 else (1 << rng.randrange(W_))
             r = 0
             if rng.random() < 0.08 and not d["gated"]:
                 r = rng.choice([1, 2])
-            v, m = ["%x" % a], ["%x" % am]
+            v, m = ["%x" % a, "%x" % xv], ["0", "%x" % xm]
             if d["gated"]:
                 v.append("%x" % rng.choice([0, 1, 1]))
                 m.append("0")
             cycles.append({"r": r, "v": v, "m": m})
-        ins = [["a", W_]] + ([["en", 1]] if d["gated"] else [])
+        ins = [["a", W_], ["x", W_]] + ([["en", 1]] if d["gated"] else [])
         outs = [[o, 0] for o in ("o_r", "o_ff", "o_c", "o_chain", "o_c2", "o_w")]
-        cases.append({"op": "sim", "src": d["src"], "top": "Top", "clk": "clk", "rst": "rst", "ins": ins,
+        cases.append({"op": "sim", "src": d["src"], "top": "t", "clk": "clk", "rst": "rst", "ins": ins,
                       "outs": outs, "cycles": cycles, "d": {k: v for k, v in d.items() if k != "src"}})
     return cases
 
@@ -666,27 +680,28 @@ def sim_reference(case, four):
         st["qc"] = V4(QW, 0xA5, 0)
     exp = []
 
-    def evalE(a):
+    def evalE(a, x):
         r = st["r"]
         ek = d["ek"]
         if ek == "var":
             return r
-        if ek == "port":
-            return a
+        if ek in ("port", "wire"):
+            return x
         if ek in ("xor", "comb"):
             return v_xor(r, a)
         if ek == "not":
             return v_not(r)
         if ek == "sel":
-            return v_sel(r, *d["sel"])
-        return v_cat(r, a)
+            return v_sel(x, *d["sel"])
+        return v_cat(r, x)
 
     for cyc in case["cycles"]:
-        a = V4(W_, int(cyc["v"][0], 16), int(cyc["m"][0], 16) if four else 0)
+        a = V4(W_, int(cyc["v"][0], 16), 0)
+        x = V4(W_, int(cyc["v"][1], 16), int(cyc["m"][1], 16) if four else 0)
         en = 1
         if d["gated"]:
-            en = int(cyc["v"][1], 16)
-        e = evalE(a)
+            en = int(cyc["v"][2], 16)
+        e = evalE(a, x)
         logs = []
         new = dict(st)
         if cyc["r"] in (1, 2):
@@ -695,7 +710,7 @@ def sim_reference(case, four):
                 logs.append(("reset", WE, e.p, e.m))
                 acc = 0
         elif en:
-            new["r"] = v_xor(v_rot1(st["r"]), a)
+            new["r"] = v_xor(st["r"], a)
             if d["twin"] == "E":
                 new["qff"] = V4(QW, e.p, e.m)
             elif d["twin"] == "~(E)":
@@ -799,13 +814,13 @@ def sim_judge(case, impl, four):
                             % (i, got["o_c"], got["o_ff"], d["twin"], d["E"])))
                 break
         # (3) an FF reading the component's output sees the previous output
-        if prev is not None and cyc["r"] == 0 and (not d["gated"] or int(cyc["v"][1], 16)) and got["o_chain"] != prev["o_c"]:
+        if prev is not None and cyc["r"] == 0 and (not d["gated"] or int(cyc["v"][2], 16)) and got["o_chain"] != prev["o_c"]:
             bad.append(("ff-sees-old-output", "cycle %d: the FF `chain = qc` holds %s; the component's output before the edge was %s"
                         % (i, got["o_chain"], prev["o_c"])))
             break
         # (4) native == wasm on the same connection
         if d["wasm"] and d["wasm_mode"] == 0 and d["func"] in (0, 5) and d["mode"] == 0 and cyc["r"] == 0 and got["o_w"] != got["o_c"] \
-                and (not d["gated"] or int(cyc["v"][1], 16)) and i >= 1 and eo["o_w"] == eo["o_c"]:
+                and (not d["gated"] or int(cyc["v"][2], 16)) and i >= 1 and eo["o_w"] == eo["o_c"]:
             bad.append(("native-vs-wasm", "cycle %d: wasm mirror drives %s, native mirror drives %s on the same connection %s"
                         % (i, got["o_w"], got["o_c"], d["E"])))
             break
@@ -990,7 +1005,7 @@ def _run(res, tier, seed, replay, proved, binary, paths):
     res.coverage["corpus_cases"] = len(corpus_cases())
 
     # ---- A: pure conversions
-    conv = gen_conv(rng, 600 if quick else 12000)
+    conv = gen_conv(rng, 300 if quick else 12000)
     impl = C.run_lines(binary, [json.dumps(c) for c in conv])
     model = conv_model(conv)
     mism_conv = []
@@ -1005,7 +1020,7 @@ def _run(res, tier, seed, replay, proved, binary, paths):
                    % len(conv), not mism_conv)
 
     # ---- B: HostContext + component API, native
-    mar = gen_marshal(rng, 700 if quick else 15000)
+    mar = gen_marshal(rng, 400 if quick else 15000)
     impl = C.run_lines(binary, [json.dumps(c) for c in mar])
     model = marshal_model(mar)
     mism_mar = []
@@ -1022,7 +1037,7 @@ def _run(res, tier, seed, replay, proved, binary, paths):
     res.obligation("correspondence HostContext/SimCtx/Value marshalling = model on %d multi-step cases" % len(mar), not mism_mar)
 
     # ---- methods and parameters
-    met = gen_method(rng, 300 if quick else 5000)
+    met = gen_method(rng, 150 if quick else 5000)
     impl_m = C.run_lines(binary, [json.dumps(c) for c in met])
     model_m = method_model(met)
     mism_met = []
@@ -1047,7 +1062,7 @@ def _run(res, tier, seed, replay, proved, binary, paths):
     res.coverage["wasm_host_cases"] = len(pairs)
 
     # ---- C: end to end through the Simulator
-    nsim = 40 if quick else 500
+    nsim = 30 if quick else 500
     sim_total = 0
     sim_bad = 0
     for (nm, args, four) in SIM_CONFIGS:
